@@ -187,6 +187,68 @@ Theorem C11_view_debugsup :
 Proof. exact debugsup_view. Qed.
 Print Assumptions C11_view_debugsup.
 
+(* composition (two hops): stripped file --.gnu_debuglink--> debug file --.gnu_debugaltlink /
+   .debug_sup--> supplementary file.  The loader is handed down: through the link one sees the
+   debug file's own view INCLUDING the supplementary view, exactly as when the debug file is
+   opened directly with the same loader *)
+Theorem C11_view_two_hop :
+  forall (inflate : list Z -> Z -> option (list Z * bool)) (parse : list Z -> option elf)
+         es name pad crc off tail load dbg ed,
+  presence es true = false -> debuglink_ok name pad crc = true ->
+  load name = Some dbg -> crc32_poly dbg = crc -> parse dbg = Some ed ->
+  sec_named ed n_debuglink = None ->
+  forall fuel relocate,
+  debug_view inflate parse (S (S fuel)) (Some load)
+             (add_section (debuglink_sec (e_le es) name pad crc off tail) es) relocate true
+  = own_view inflate parse (Some load) ed relocate true.
+Proof. exact two_hop_view. Qed.
+Print Assumptions C11_view_two_hop.
+
+Theorem C11_view_two_hop_altlink :
+  forall (inflate : list Z -> Z -> option (list Z * bool)) (parse : list Z -> option elf)
+         es name pad crc off tail load dbg e supname id rest off2 tail2 b esup sl slsup relocate,
+  presence es true = false -> debuglink_ok name pad crc = true ->
+  load name = Some dbg -> crc32_poly dbg = crc ->
+  parse dbg = Some (add_section (link_section n_debugaltlink (altlink_body supname (id ++ rest)) off2 tail2) e) ->
+  sec_named e n_debuglink = None ->
+  no_phantom e = true -> own_slots inflate e relocate = Some sl -> nth SLOT_SUP sl None = None ->
+  no_nul supname = true -> length id = 20%nat ->
+  load supname = Some b -> parse b = Some esup ->
+  own_slots inflate esup true = Some slsup -> sup_path (e_le esup) slsup <> None ->
+  forall fuel,
+  debug_view inflate parse (S (S fuel)) (Some load)
+             (add_section (debuglink_sec (e_le es) name pad crc off tail) es) relocate true
+  = Some (mkView (config_of e)
+            (set_nth SLOT_ALTLINK
+               (Some (mkDesc (altlink_body supname (id ++ rest)) (zlen (altlink_body supname (id ++ rest))) 0
+                             (if relocate then reloc_index e n_debugaltlink else None))) sl)
+            (Some (config_of esup, slsup))).
+Proof. exact two_hop_altlink. Qed.
+Print Assumptions C11_view_two_hop_altlink.
+
+Theorem C11_view_two_hop_debugsup :
+  forall (inflate : list Z -> Z -> option (list Z * bool)) (parse : list Z -> option elf)
+         es name pad crc off tail load dbg e version supname rest off2 tail2 b esup sl slsup relocate,
+  presence es true = false -> debuglink_ok name pad crc = true ->
+  load name = Some dbg -> crc32_poly dbg = crc ->
+  parse dbg = Some (add_section (link_section n_debug_sup (debugsup_body (e_le e) version 0 supname rest) off2 tail2) e) ->
+  sec_named e n_debuglink = None ->
+  no_phantom e = true -> own_slots inflate e relocate = Some sl ->
+  no_nul supname = true ->
+  load supname = Some b -> parse b = Some esup ->
+  own_slots inflate esup true = Some slsup -> sup_path (e_le esup) slsup <> None ->
+  forall fuel,
+  debug_view inflate parse (S (S fuel)) (Some load)
+             (add_section (debuglink_sec (e_le es) name pad crc off tail) es) relocate true
+  = Some (mkView (config_of e)
+            (set_nth SLOT_SUP
+               (Some (mkDesc (debugsup_body (e_le e) version 0 supname rest)
+                             (zlen (debugsup_body (e_le e) version 0 supname rest)) 0
+                             (if relocate then reloc_index e n_debug_sup else None))) sl)
+            (Some (config_of esup, slsup))).
+Proof. exact two_hop_debugsup. Qed.
+Print Assumptions C11_view_two_hop_debugsup.
+
 (* ======================================================================= the code's data *)
 (* regenerated from the live code on every run (Gen/C11Names.v): the section names
    get_dwarf_info asks for and the DWARFInfo parameter each feeds, the names of
@@ -428,6 +490,21 @@ Example C11_ex_sup :
   = Some (option_map (fun sl => (config_of ex_elf, sl)) (own_slots inflate_stored ex_elf true)) /\
   own_slots inflate_stored ex_elf true <> None.
 Proof. split; [vm_compute; reflexivity|]. split; [vm_compute; reflexivity|vm_compute; discriminate]. Qed.
+
+(* two hops on concrete files: the supplementary view is there, and it is the one the debug
+   file shows when opened directly *)
+Example C11_ex_two_hop :
+  debug_view inflate_stored ex2_parse 3 (Some ex2_load)
+    (add_section (debuglink_sec true ex_dbg_name ex_pad ex2_crc 200 [1]) ex_stripped) true true
+  = own_view inflate_stored ex2_parse (Some ex2_load) ex2_dbg_elf true true /\
+  option_map v_sup (own_view inflate_stored ex2_parse (Some ex2_load) ex2_dbg_elf true true)
+  = Some (option_map (fun sl => (config_of ex_elf, sl)) (own_slots inflate_stored ex_elf true)) /\
+  own_slots inflate_stored ex_elf true <> None.
+Proof.
+  split; [|split; [vm_compute; reflexivity|vm_compute; discriminate]].
+  apply (C11_view_two_hop inflate_stored ex2_parse ex_stripped ex_dbg_name ex_pad ex2_crc 200 [1]
+           ex2_load ex2_dbg_bytes ex2_dbg_elf); try reflexivity; vm_compute; reflexivity.
+Qed.
 
 (* rejections: a concrete bad framing; presence on a concrete file *)
 Example C11_ex_zdebug_bad :
